@@ -1,14 +1,16 @@
 ---- MODULE AggSigDBMC ----
 (* Exhaustive design check: every interleaving of reader calls over overlapping keys, Store calls of one- and
-   two-entry sets (incl. equal and conflicting re-stores, in both map orders), cancellations, expiries and the
-   internal steps of BOTH implementations.  Readers are allocated in canonical order (r1, r2, ...): they are
+   two-entry sets (incl. equal and conflicting re-stores, in both map orders) by up to MaxWriters CONCURRENT writers,
+   cancellations, expiries and the internal steps of BOTH implementations.  Readers are allocated in canonical order (r1, r2, ...): they are
    interchangeable. *)
 EXTENDS AggSigDB
-CONSTANTS MaxReaders, MaxStores, MaxCancel, MaxExpire, Duties, Pks, Vals
+CONSTANTS MaxReaders, MaxStores, MaxWriters, MaxCancel, MaxExpire, Duties, Pks, Vals
 VARIABLES nst, ncx, nex          \* bounds only: Store calls, cancellations, expiries so far
 mcvars == <<vars, nst, ncx, nex>>
 MCKeys == {[d |-> d, p |-> p] : d \in Duties, p \in Pks}
 RId(n) == "r" \o ToString(n)
+WId(n) == "w" \o ToString(n)
+MCWriters == {WId(n) : n \in 1..MaxWriters}
 \* the sets a Store call may carry: for one duty, a value for each validator of a non-empty subset
 StoreSets == UNION {{ {[k |-> [d |-> d, p |-> p], v |-> f[p]] : p \in P} : f \in [P -> Vals]} :
                       d \in Duties, P \in (SUBSET Pks) \ {{}}}
@@ -18,19 +20,22 @@ MCNext ==
                        /\ UNCHANGED <<nst, ncx, nex>>
   \/ \E r \in DOMAIN rd : (Query(r) \/ TakeToken(r) \/ ReturnVal(r) \/ ReturnErr(r)) /\ UNCHANGED <<nst, ncx, nex>>
   \/ \E r \in DOMAIN rd : ncx < MaxCancel /\ Cancel(r) /\ ncx' = ncx + 1 /\ UNCHANGED <<nst, nex>>
-  \/ \E S \in StoreSets : nst < MaxStores /\ StoreCall(S) /\ nst' = nst + 1 /\ UNCHANGED <<ncx, nex>>
-  \/ (\E e \in wr.todo : StoreEntry(e)) /\ UNCHANGED <<nst, ncx, nex>>
-  \/ StoreReturn /\ UNCHANGED <<nst, ncx, nex>>
+  \/ \E S \in StoreSets, w \in MCWriters : nst < MaxStores /\ StoreCall(w, S) /\ nst' = nst + 1 /\ UNCHANGED <<ncx, nex>>
+  \/ \E w \in DOMAIN wr : /\ \/ Acquire(w) \/ (\E e \in wr[w].todo : StoreEntry(w, e) \/ CheckEntry(w, e))
+                             \/ InsertEntry(w) \/ StoreReturn(w) \/ StoreAck(w)
+                          /\ UNCHANGED <<nst, ncx, nex>>
   \/ \E d \in Duties : nex < MaxExpire /\ Expire(d) /\ nex' = nex + 1 /\ UNCHANGED <<nst, ncx>>
 MCSpec == MCInit /\ [][MCNext]_mcvars
 Sym == Permutations(Duties) \cup Permutations(Pks) \cup Permutations(Vals)
-View == <<impl, data, rd, notify, wr, written, nst, ncx, nex>>      \* `last` is observed by no invariant
-NoExpiryReadsCurrent == (MaxExpire = 0) => ReadsCurrent
+View == <<impl, data, rd, notify, wr, written, acked, nst, ncx, nex>>      \* `last` is observed by no invariant
+NoExpiryReadsCurrent == (MaxExpire = 0) => (ReadsCurrent /\ AckedStored)
 \* liveness under fairness of the store's and the readers' own steps: a reader whose key is stored gets its value
 \* (or the key expires first)
 UC == UNCHANGED <<nst, ncx, nex>>
-FairSpec == MCSpec /\ WF_mcvars(StoreReturn /\ UC) /\ WF_mcvars((\E e \in wr.todo : StoreEntry(e)) /\ UC)
-                   /\ \A n \in 1..MaxReaders : WF_mcvars(Query(RId(n)) /\ UC) /\ WF_mcvars(TakeToken(RId(n)) /\ UC)
+FairW(w) == /\ WF_mcvars(StoreReturn(w) /\ UC) /\ WF_mcvars(Acquire(w) /\ UC)
+            /\ WF_mcvars(w \in DOMAIN wr /\ (\E e \in wr[w].todo : StoreEntry(w, e)) /\ UC)
+FairR(r) == WF_mcvars(Query(r) /\ UC) /\ WF_mcvars(TakeToken(r) /\ UC)
+FairSpec == MCSpec /\ (\A i \in 1..MaxWriters : FairW(WId(i))) /\ (\A j \in 1..MaxReaders : FairR(RId(j)))
 Live1(r) == (r \in DOMAIN rd /\ rd[r].st \in {"called", "wait", "retry"} /\ Stored(rd[r].k))
                ~> (r \in DOMAIN rd /\ (rd[r].st \in {"done", "ret"} \/ ~Stored(rd[r].k)))
 Liveness == \A n \in 1..MaxReaders : Live1(RId(n))
